@@ -264,11 +264,88 @@ func VerifH_C12_csv() {
 	}
 }
 
+// C12: CSV rows are the fields of the record, and stay so while the same decoder decodes the next line
+// (rows are handed to events that outlive the call).
+func VerifH_C12_csvFidelity() {
+	d := &CSVDecoder{params: CSVParams{delimiter: ','}}
+	d.buffersPool.New = func() any { return NewCSVBuffers() }
+	build := func(tag string) ([]byte, []string) {
+		nf := 1 + vf.Choose(tag+"-fields", vf.Param("F", 2))
+		var line []byte
+		var want []string
+		for i := 0; i < nf; i++ {
+			if i > 0 {
+				line = append(line, ',')
+			}
+			switch vf.Choose(tag+"-kind", 4) {
+			case 0: // plain
+				b := vf.Bytes(tag+"-plain", 1+vf.Choose(tag+"-plain-len", 2))
+				for _, c := range b {
+					vf.Assume(c != ',' && c != '"' && c > ' ' && c < 0x7f) // the decoder trims white space around the last field
+				}
+				line = append(line, b...)
+				want = append(want, string(b))
+			case 1: // empty
+				want = append(want, "")
+			case 2: // quoted with a delimiter and a doubled quote inside
+				line = append(line, `"a,""b"`...)
+				want = append(want, `a,"b`)
+			case 3: // quoted, symbolic content
+				c := vf.Byte(tag + "-quoted")
+				vf.Assume(c != '"' && c != '\n' && c != '\r' && c < 0x80)
+				line = append(line, '"', c, 'z', '"')
+				want = append(want, string([]byte{c, 'z'}))
+			}
+		}
+		if nf == 1 && len(line) == 0 {
+			line = append(line, 'q')
+			want[0] = "q"
+		}
+		line = append(line, '\n')
+		return line, want
+	}
+	same := func(row CSVRow, want []string) bool {
+		if len(row) != len(want) {
+			return false
+		}
+		ok := true
+		for i := range want {
+			if len(row[i]) != len(want[i]) {
+				return false
+			}
+			for j := 0; j < len(want[i]); j++ {
+				ok = vf.And(ok, row[i][j] == want[i][j])
+			}
+		}
+		return ok
+	}
+	l1, w1 := build("first")
+	r1, err := d.Decode(l1)
+	if vf.Param("twin", 0) == 1 {
+		vf.Assert(err != nil, "csv-twin")
+		return
+	}
+	vf.Assert(err == nil, "csv-valid-record-decodes")
+	if err != nil {
+		return
+	}
+	vf.Assert(same(r1.(CSVRow), w1), "csv-row-is-the-record")
+	l2, w2 := build("second")
+	r2, err := d.Decode(l2)
+	vf.Assert(err == nil, "csv-valid-record-decodes")
+	if err != nil {
+		return
+	}
+	vf.Assert(same(r2.(CSVRow), w2), "csv-row-is-the-record")
+	vf.Assert(same(r1.(CSVRow), w1), "csv-earlier-row-survives-next-decode")
+	vf.Reach("csv-two-rows")
+}
+
 // ---- json_max_fields_size ----
 
 // C12: per-field size limits cut only the named string field and always leave valid JSON.
 func VerifH_C12_jsonMaxFields() {
-	contents := []string{`abcdef`, `ab`, ``, `\"\"\"\"xyz`, `a\\b\\c`, `ABC`, `日本語テキスト`}
+	contents := []string{`abcdef`, `ab`, ``, `\"\"\"\"xyz`, `a\\b\\c`, `ABC`, `日本語テキスト`, `ab\u00e9cdefgh`, `\u0041\u0042xy`}
 	k := vf.Choose("content", len(contents))
 	limit := vf.Choose("limit", vf.Param("LIM", 4))
 	other := `"n":12,"g":"` + contents[(k+1)%len(contents)] + `"`
@@ -288,6 +365,11 @@ func VerifH_C12_jsonMaxFields() {
 	buf := append([]byte(doc), "XY"...) // guard bytes: the next line in the caller's buffer
 	line := buf[:len(doc):len(buf)]
 	d := &jsonDecoder{params: jsonParams{maxFieldsSize: map[string]int{"f": limit}}}
+	if vf.Param("twin", 0) != 1 {
+		cutBuf := append([]byte(doc), "XY"...)
+		cut := d.cutFieldsBySize(cutBuf[:len(doc):len(cutBuf)])
+		vf.Assert(verifStrictJSON(cut), "limited-document-is-strictly-valid-json")
+	}
 	root := insaneJSON.Spawn()
 	err := d.DecodeToJson(root, line)
 	if vf.Param("twin", 0) == 1 {
@@ -307,4 +389,140 @@ func VerifH_C12_jsonMaxFields() {
 		vf.Assert(len(got) <= len(wantF) && len(got) >= 0 && wantF[:len(got)] == got || k >= 3, "cut-field-is-a-prefix")
 		vf.Reach("field-cut")
 	}
+}
+
+// verifStrictJSON: RFC 8259 validity of one document (plain Go; the data it sees here is concrete).
+func verifStrictJSON(b []byte) bool {
+	i := 0
+	ws := func() {
+		for i < len(b) && (b[i] == ' ' || b[i] == '\t' || b[i] == '\n' || b[i] == '\r') {
+			i++
+		}
+	}
+	var value func(depth int) bool
+	str := func() bool {
+		if i >= len(b) || b[i] != '"' {
+			return false
+		}
+		i++
+		for i < len(b) {
+			c := b[i]
+			switch {
+			case c == '"':
+				i++
+				return true
+			case c < 0x20:
+				return false
+			case c == '\\':
+				if i+1 >= len(b) {
+					return false
+				}
+				e := b[i+1]
+				if e == 'u' {
+					if i+5 >= len(b) {
+						return false
+					}
+					for k := 2; k < 6; k++ {
+						h := b[i+k]
+						if !(h >= '0' && h <= '9' || h >= 'a' && h <= 'f' || h >= 'A' && h <= 'F') {
+							return false
+						}
+					}
+					i += 6
+				} else if e == '"' || e == '\\' || e == '/' || e == 'b' || e == 'f' || e == 'n' || e == 'r' || e == 't' {
+					i += 2
+				} else {
+					return false
+				}
+			default:
+				i++
+			}
+		}
+		return false
+	}
+	value = func(depth int) bool {
+		ws()
+		if i >= len(b) || depth > 8 {
+			return false
+		}
+		switch c := b[i]; {
+		case c == '"':
+			return str()
+		case c == '{':
+			i++
+			ws()
+			if i < len(b) && b[i] == '}' {
+				i++
+				return true
+			}
+			for {
+				ws()
+				if !str() {
+					return false
+				}
+				ws()
+				if i >= len(b) || b[i] != ':' {
+					return false
+				}
+				i++
+				if !value(depth + 1) {
+					return false
+				}
+				ws()
+				if i < len(b) && b[i] == ',' {
+					i++
+					continue
+				}
+				if i < len(b) && b[i] == '}' {
+					i++
+					return true
+				}
+				return false
+			}
+		case c == '[':
+			i++
+			ws()
+			if i < len(b) && b[i] == ']' {
+				i++
+				return true
+			}
+			for {
+				if !value(depth + 1) {
+					return false
+				}
+				ws()
+				if i < len(b) && b[i] == ',' {
+					i++
+					continue
+				}
+				if i < len(b) && b[i] == ']' {
+					i++
+					return true
+				}
+				return false
+			}
+		case c == '-' || c >= '0' && c <= '9':
+			st := i
+			if c == '-' {
+				i++
+			}
+			for i < len(b) && (b[i] >= '0' && b[i] <= '9' || b[i] == '.' || b[i] == 'e' || b[i] == 'E' || b[i] == '+' || b[i] == '-') {
+				i++
+			}
+			return i > st && b[i-1] >= '0' && b[i-1] <= '9'
+		default:
+			for _, lit := range []string{"true", "false", "null"} {
+				if i+len(lit) <= len(b) && string(b[i:i+len(lit)]) == lit {
+					i += len(lit)
+					return true
+				}
+			}
+			return false
+		}
+	}
+	if !value(0) {
+		return false
+	}
+	ws()
+	return i == len(b)
 }
